@@ -30,3 +30,30 @@ Definition nonvac_check : bool :=
   | _, _ => false end.
 Example C20_nonvacuous : nonvac_check = true.
 Proof. vm_compute. reflexivity. Qed.
+
+(* ---------------- permutation / history theorems of the domain models (restated here) ---------------- *)
+Require C05 C06 C16 C17 C18.
+(* the members of a SpecifierSet are a frozenset: contains() and str() do not depend on its iteration order (hash seed, supply order) *)
+Theorem C20_set_contains_order_independent S S' arg inst item : Permutation (SetsModel.ms S) (SetsModel.ms S') -> SetsModel.ov S = SetsModel.ov S' ->
+  SetsBridge.wf_set S -> SetsModel.set_contains S arg inst item = SetsModel.set_contains S' arg inst item.
+Proof. exact (C05.C05_perm_invariant S S' arg inst item). Qed.
+Print Assumptions C20_set_contains_order_independent.
+Theorem C20_set_str_order_independent S S' : Permutation (SetsModel.ms S) (SetsModel.ms S') -> SetsModel.set_str S = SetsModel.set_str S'.
+Proof. exact (C05.C05_str_deterministic S S'). Qed.
+Print Assumptions C20_set_str_order_independent.
+(* the only state of a Specifier / SpecifierSet is the pre-release override: after any sequence of operations the next answer depends only on
+   the latest override that was assigned *)
+Theorem C20_specifier_history_independent x ops ops' o : SetsFilter.latest ops (SetsModel.obj_override x) = SetsFilter.latest ops' (SetsModel.obj_override x) ->
+  snd (SetsModel.step (SetsFilter.after x ops) o) = snd (SetsModel.step (SetsFilter.after x ops') o).
+Proof. exact (C06.C06_history x ops ops' o). Qed.
+Print Assumptions C20_specifier_history_independent.
+(* Metadata: every sequence of attribute reads returns the conversion of the ORIGINAL raw values (cached reads included) *)
+Theorem C20_metadata_reads_history_independent O data ks :
+  MetaModel.reads O (MetaModel.init data) ks = map (fun k => MetaModel.compute O k (MetaBase.lookup k data)) ks.
+Proof. exact (C17.C17_reads_history_independent O data ks). Qed.
+Print Assumptions C20_metadata_reads_history_independent.
+(* the cached libc probes are transparent: repeating a probe returns what the first call returned *)
+Theorem C20_probe_cache_transparent e envs n :
+  PlatModel.run_probes None (e :: envs) = e :: map (fun _ => e) envs /\ PlatModel.run_probes None (repeat e n) = repeat e n.
+Proof. exact (C16.C16_cache_transparent e envs n). Qed.
+Print Assumptions C20_probe_cache_transparent.
